@@ -995,7 +995,7 @@ func replySummary(t *Task) string {
 	}
 	if r.Msg != nil {
 		m := r.Msg
-		s += fmt.Sprintf(" msg=%s code=%s irt=%q dest=%q issuer=%q", m.Kind, m.StatusCode, m.InResponseTo, m.Destination, m.Issuer)
+		s += fmt.Sprintf(" msg=%s code=%s smsg=%q irt=%q dest=%q issuer=%q", m.Kind, m.StatusCode, abbreviate(m.StatusMessage, 160), m.InResponseTo, m.Destination, m.Issuer)
 		for _, a := range m.Assertions {
 			attrs := make([]string, 0, len(a.Attrs))
 			for _, at := range a.Attrs {
